@@ -28,6 +28,12 @@ def compile_and_link(builder, ob, workdir):
     hsrc = os.path.join(VERIF, "harness", ob.harness)
     ho = os.path.join(workdir, "harness.o")
     flags = BASE_CFLAGS + CONFIGS[ob.config] + ["-DVERIF_REPO=\"%s\"" % REPO] + ["-D" + d for d in ob.defs]
+    if ob.gen:
+        try:
+            ob.gen_info = ob.gen(REPO, workdir)
+        except Exception as e:
+            raise BuildError("generator failed for %s: %s" % (ob.name, e))
+        flags = flags + ["-I", workdir]
     r = run(["goto-cc"] + flags + ["-c", hsrc, "-o", ho])
     if r["rc"] != 0:
         raise BuildError("goto-cc failed on harness %s:\n%s" % (ob.harness, r["err"][-4000:]))
@@ -53,6 +59,15 @@ def compile_and_link(builder, ob, workdir):
     r = run(["goto-cc"] + link + ["-o", gb])
     if r["rc"] != 0:
         raise BuildError("goto-cc link failed for %s:\n%s" % (ob.name, r["err"][-4000:]))
+    if ob.replace_calls:
+        gb2 = os.path.join(workdir, "p1.gb")
+        cmd = ["goto-instrument"]
+        for s_ in ob.replace_calls:
+            cmd += ["--replace-calls", s_]
+        r = run(cmd + [gb, gb2])
+        if r["rc"] != 0:
+            raise BuildError("goto-instrument --replace-calls failed for %s:\n%s\n%s" % (ob.name, r["out"][-2000:], r["err"][-2000:]))
+        gb = gb2
     if ob.fp_restrict:
         gb2 = os.path.join(workdir, "p2.gb")
         cmd = ["goto-instrument"]
@@ -66,7 +81,7 @@ def compile_and_link(builder, ob, workdir):
 
 
 def cbmc_cmd(ob, gb):
-    cmd = ["cbmc", gb, "--function", ob.entry] + CBMC_BASE + ["--unwind", str(ob.unwind)]
+    cmd = ["cbmc", gb, "--function", ob.entry, "--object-bits", str(ob.object_bits), "--max-field-sensitivity-array-size", str(ob.fs_size)] + CBMC_BASE + ["--unwind", str(ob.unwind)]
     if ob.unwindset:
         cmd += ["--unwindset", ",".join(ob.unwindset)]
     for c in ob.checks:
@@ -84,7 +99,7 @@ def cbmc_cmd(ob, gb):
 
 
 NATIVE_CFLAGS = ["-I", os.path.join(REPO, "include"), "-I", os.path.join(REPO, "src"), "-I", os.path.join(VERIF, "lib"), "-std=gnu99",
-                 "-DCELLO_NSTRACE", "-D" + GUARD, "-DV_NATIVE", "-g", "-O0", "-w",
+                 "-DCELLO_NSTRACE", "-DV_NATIVE", "-g", "-O0", "-w",
                  "-fsanitize=address,undefined", "-DVERIF_REPO=\"%s\"" % REPO]
 _native_lock = threading.Lock()
 _native_cache = {}
@@ -134,6 +149,9 @@ def native_replay(ob, inputs_c, workdir, tag, stop_at_witness=False, expect_msg=
         f.write("#include \"%s\"\n" % hsrc)
         f.write("const struct Inputs IN_REPLAY = %s;\n" % (inputs_c or "{0}"))
     hflags = NATIVE_CFLAGS + CONFIGS[ob.config] + ["-D" + x for x in ob.defs]
+    if ob.gen:
+        ob.gen(REPO, d)
+        hflags = hflags + ["-I", d]
     cmds = []
     objs = []
     for f, o in lib.items():
@@ -143,7 +161,8 @@ def native_replay(ob, inputs_c, workdir, tag, stop_at_witness=False, expect_msg=
             if ob.throw == "stub":
                 objs.append(o)
             continue
-        if ob.link != "all" and f not in ob.link:
+        nl = ob.native_link if ob.native_link is not None else ob.link
+        if nl != "all" and f not in nl:
             continue
         objs.append(o)
     for s in ob.srcs_extra:
@@ -281,7 +300,7 @@ def run_ob(builder, ob, scratch, replay_dir, want_native=True):
         res["verdict"] = "HOLDS"
     # replay: the witness model on every run (harness <-> native correspondence), failures always
     res["replays"] = []
-    if want_native and ob.native:
+    if want_native and ob.native and not ob.replace_calls:
         if res.get("sample_c") and res["verdict"] in ("HOLDS",):
             env_w = native_replay_witness(ob, res["sample_c"], workdir)
             res["witness_replay"] = env_w["status"]
